@@ -95,6 +95,7 @@ pub fn lookup(toks: &[&str]) -> String {
         out.push(match state.ast.find_node(&key) {
             Err(_) => "none".to_string(),
             Ok(Node::Module(m)) => format!("module {}", m.borrow().nested_module_identifier()),
+            Ok(Node::Primitive(p)) => format!("primitive {}", p.borrow().kind()),
             Ok(node) => match <&dyn Entity>::try_from(node) {
                 Ok(e) => { let sp = e.raw_identifier().span(); format!("entity {} {}:{} {}", sp.file, sp.start.row, sp.start.col, e.kind()) }
                 Err(_) => "other".to_string(),
@@ -194,6 +195,18 @@ pub fn run(toks: &[&str]) -> String {
     let mut options = SliceOptions::default();
     if toks.get(i) == Some(&"F") { i += 1; while i < toks.len() {
         let parts: Vec<&str> = toks[i].splitn(3, ':').collect();
+        if parts[0] == "B" {
+            // a file that is merely present under a name given byte by byte (not necessarily UTF-8)
+            #[cfg(unix)]
+            {
+                use std::os::unix::ffi::OsStringExt;
+                let p = w.join(std::ffi::OsString::from_vec(crate::codec::unhex(parts[1])));
+                if let Some(parent) = p.parent() { let _ = std::fs::create_dir_all(parent); }
+                let _ = std::fs::write(&p, crate::codec::unhex(parts[2]));
+            }
+            i += 1;
+            continue;
+        }
         let name = text_of(parts[1]);
         if let Some(parent) = std::path::Path::new(&name).parent() { let _ = std::fs::create_dir_all(w.join(parent)); }
         std::fs::write(w.join(&name), crate::codec::unhex(parts[2])).unwrap();
